@@ -35,7 +35,7 @@ def gen_cases(rng, tier):
     cases = []
     for k in range(n):
         site = SITES[k % len(SITES)]
-        nd = 1 if rng.random() < 0.75 else 2
+        nd = 1 if rng.random() < 0.7 else rng.choice([2, 2, 3])
         ns = rng.randint(1, 5)
         eq = rng.random() < 0.5
         L = rng.randint(1, maxlen)
